@@ -223,8 +223,9 @@ pub fn make_module() -> KMap {
 
         match ctx.instance_and_args(is_string, expected_error)? {
             (KValue::Str(s), []) => {
-                let result = s.chars().flat_map(|c| c.to_lowercase()).collect::<String>();
-                Ok(result.into())
+                // Lowercasing the whole string takes context-dependent mappings into account
+                // (e.g. a word-final sigma)
+                Ok(s.to_lowercase().into())
             }
             (instance, args) => unexpected_args_after_instance(expected_error, instance, args),
         }
